@@ -18,7 +18,7 @@ theorem C07_update_faces_bool (m : Mesh α β) (mask : List Bool) :
     (updateFacesBool m mask).V = m.V ∧
     (m.F.length = m.FA.length → (updateFacesBool m mask).F.length = (updateFacesBool m mask).FA.length) ∧
     (InRange m → InRange (updateFacesBool m mask)) := by
-  sorry
+  exact updateFacesBool_spec m mask
 
 /-- face selection by integer indices (order and repetition as given) -/
 theorem C07_update_faces_idx (m : Mesh α β) (idx : List Nat) (h : ∀ i ∈ idx, i < m.F.length)
@@ -27,7 +27,7 @@ theorem C07_update_faces_idx (m : Mesh α β) (idx : List Nat) (h : ∀ i ∈ id
     (updateFacesIdx m idx).FA = idx.filterMap (m.FA[·]?) ∧
     (updateFacesIdx m idx).F.length = idx.length ∧ (updateFacesIdx m idx).FA.length = idx.length ∧
     (InRange m → InRange (updateFacesIdx m idx)) := by
-  sorry
+  exact updateFacesIdx_spec m idx h hFA
 
 /-- vertex masking that keeps every referenced vertex leaves every triangle unchanged, keeps the
     surviving vertex payloads in their original order, and faces index existing vertices -/
@@ -38,7 +38,8 @@ theorem C07_update_vertices_bool (m : Mesh α β) (mask : List Bool) (hlen : mas
     (updateVerticesBool m mask).V = maskFilter m.V mask ∧
     (updateVerticesBool m mask).FA = m.FA ∧
     InRange (updateVerticesBool m mask) := by
-  sorry
+  -- `hlen` is not needed by the proof (kept in the statement; referenced only to silence the linter)
+  exact (fun _ => updateVerticesBool_spec m mask hr hkeep) hlen
 
 /-- the guard above is needed: the code re-points a corner whose vertex was dropped at vertex 0 -/
 theorem C07_update_vertices_dropped_witness :
@@ -51,13 +52,13 @@ theorem C07_remove_unreferenced (m : Mesh α β) (hr : InRange m) :
     triangles (removeUnreferenced m) = triangles m ∧ InRange (removeUnreferenced m) ∧
     (removeUnreferenced m).V = maskFilter m.V (referencedMask m) ∧
     (removeUnreferenced m).FA = m.FA := by
-  sorry
+  exact removeUnreferenced_spec m hr
 
 /-- un-merging keeps every triangle, makes faces index existing vertices, each exactly once -/
 theorem C07_unmerge (m : Mesh α β) (hr : InRange m) :
     triangles (unmerge m) = triangles m ∧ InRange (unmerge m) ∧
     (unmerge m).V.length = 3 * m.F.length ∧ (unmerge m).FA = m.FA := by
-  sorry
+  exact unmerge_spec m hr
 
 /-- merging vertices by any key: every corner of every triangle keeps its key (so positions agree
     within the merge tolerance that defines the key), the corner payload is the payload of the first
@@ -74,26 +75,26 @@ theorem C07_merge {κ : Type} [DecidableEq κ] (le : κ → κ → Bool) (hle : 
     (m'.V.map key).Nodup ∧
     (∀ a ∈ m'.V, ∃ v, m.V[v]? = some a ∧ (referencedMask m).getD v false = true ∧
         ∀ w, w < v → (referencedMask m).getD w false = true → (m.V[w]?).map key ≠ some (key a)) := by
-  sorry
+  exact mergeVertices_spec le hle key m hr
 
 /-- stacking two meshes: triangles and face data are concatenated, faces stay in range -/
 theorem C07_append (a b : Mesh α β) (ha : InRange a) (hb : InRange b) :
     triangles (append a b) = triangles a ++ triangles b ∧ (append a b).FA = a.FA ++ b.FA ∧
     InRange (append a b) := by
-  sorry
+  exact append_spec a b ha hb
 
 /-- concatenating any list of meshes concatenates their triangles in order -/
 theorem C07_concatenate (ms : List (Mesh α β)) (h : ∀ m ∈ ms, InRange m) :
     triangles (concatenate ms) = (ms.map triangles).flatten ∧
     (concatenate ms).FA = (ms.map (·.FA)).flatten ∧ InRange (concatenate ms) := by
-  sorry
+  exact concatenate_spec ms h
 
 /-- a submesh holds exactly the selected triangles, in the selected order, with their face data -/
 theorem C07_submesh (m : Mesh α β) (idx : List Nat) (hr : InRange m) (h : ∀ i ∈ idx, i < m.F.length)
     (hFA : m.F.length = m.FA.length) :
     triangles (submesh m idx) = idx.filterMap ((triangles m)[·]?) ∧
     (submesh m idx).FA = idx.filterMap (m.FA[·]?) ∧ InRange (submesh m idx) := by
-  sorry
+  exact submesh_spec m idx hr h hFA
 
 /-- splitting along any partition of the faces and concatenating the parts reproduces the original
     triangle multiset (and the attached face data travels with its triangle) -/
@@ -102,12 +103,12 @@ theorem C07_split_concat (m : Mesh α β) (comps : List (List Nat)) (hr : InRang
     (hpart : comps.flatten.Perm (List.range m.F.length)) :
     ((triangles (concatenate (split m comps))).zip (concatenate (split m comps)).FA).Perm
       ((triangles m).zip m.FA) := by
-  sorry
+  exact split_concat_spec m comps hr hFA hpart
 
 /-- the duplicate-face mask marks exactly the first occurrence of every unordered index triple -/
 theorem C07_unique_faces (m : Mesh α β) (i : Nat) (hi : i < m.F.length) :
     (uniqueFacesMask m)[i]? = some (decide (∀ j, j < i → (m.F.map sort3)[j]? ≠ (m.F.map sort3)[i]?)) := by
-  sorry
+  exact uniqueFacesMask_spec m i hi
 
 /-! non-vacuity (a test, labelled as such) -/
 example : let m : Mesh Nat Unit := { V := [10, 11, 12, 13, 14], F := [(1, 2, 4), (4, 2, 1)], FA := [(), ()] }
